@@ -171,6 +171,33 @@ func checkValueContainersUnwritten(r *Run, cg *CallGraph, reach map[*types.Func]
 			}
 			return true
 		})
+		// a local that starts as the parameter and is written after a copy was (or was not) made
+		if bad == token.NoPos {
+			ast.Inspect(fd.Body, func(x ast.Node) bool {
+				as, ok := x.(*ast.AssignStmt)
+				if !ok || len(as.Lhs) != len(as.Rhs) || bad != token.NoPos {
+					return true
+				}
+				for i, rhs := range as.Rhs {
+					rid, ok := ast.Unparen(rhs).(*ast.Ident)
+					if !ok || !params[info.Uses[rid]] {
+						continue
+					}
+					lid, ok := ast.Unparen(as.Lhs[i]).(*ast.Ident)
+					if !ok || lid.Name == "_" {
+						continue
+					}
+					local := info.ObjectOf(lid)
+					if local == nil || local == info.Uses[rid] {
+						continue
+					}
+					if ws := cowWrites(info, fd, info.Uses[rid], local); len(ws) > 0 {
+						bad, what = ws[0], "writes an element of "+lid.Name+" on a path where it still is "+rid.Name+" (no copy was made on that path)"
+					}
+				}
+				return true
+			})
+		}
 		construct := shortFuncName(fn) + ":value-container"
 		if bad != token.NoPos {
 			r.Fail(rule, construct, bad, "%s %s, a container of untyped values it was handed: on the translation path that is a nested value of the caller's parameter map (NewTranslator copies the top level only), so translation changes its input and two translations sharing the value write one map concurrently", shortFuncName(fn), what)
@@ -280,6 +307,8 @@ func checkConstantIndexGuarded(r *Run, cg *CallGraph, reach map[*types.Func]*cgE
 			construct := shortFuncName(fn) + ":" + exprString(r.Fset, ix)
 			if lenAtLeast(r, info, fd, ix, id.Name, c+1) {
 				r.Pass(rule, construct, ix.Pos(), "read under a test of len(%s)", id.Name)
+			} else if callersEnsureLen(r, cg, fn, fd, info.Uses[id], c+1) {
+				r.Pass(rule, construct, ix.Pos(), "every caller of the unexported %s calls it under a test of the length of the argument", fn.Name())
 			} else {
 				r.Fail(rule, construct, ix.Pos(), "%s is read without a test that %s has at least %d element(s) (a nil test lets an empty slice through): an empty list value — `in $names` with names = []any{} — makes translation panic with index out of range instead of returning a result or an error", exprString(r.Fset, ix), id.Name, c+1)
 			}
@@ -533,4 +562,72 @@ func checkLockFreeMappersReadOnly(r *Run, pkgs ...*packages.Package) {
 	if n == 0 {
 		r.Undecide("C05-R8: no lock-free kind mapper with Map… methods found")
 	}
+}
+
+// callersEnsureLen: fn is unexported, and each static call of fn in its package passes, for the parameter param, an
+// expression whose length is known to be at least need at the call.
+func callersEnsureLen(r *Run, cg *CallGraph, fn *types.Func, fd *ast.FuncDecl, param types.Object, need int64) bool {
+	if fn.Exported() {
+		return false
+	}
+	p := cg.PkgOf[fn]
+	if p == nil {
+		return false
+	}
+	info := p.TypesInfo
+	idx := paramIndexOf(info, fd, param)
+	if idx < 0 {
+		return false
+	}
+	callers, all := 0, true
+	for _, f := range p.Syntax {
+		for _, d := range f.Decls {
+			caller, ok := d.(*ast.FuncDecl)
+			if !ok || caller.Body == nil {
+				continue
+			}
+			ast.Inspect(caller.Body, func(n ast.Node) bool {
+				switch x := n.(type) {
+				case *ast.CallExpr:
+					if calleeOf(info, x) != fn || idx >= len(x.Args) {
+						return true
+					}
+					callers++
+					if !lenAtLeast(r, info, caller, x, exprString(r.Fset, x.Args[idx]), need) {
+						all = false
+					}
+				case *ast.Ident:
+					// the function used as a value: its callers are not known
+					if info.Uses[x] == fn {
+						if !isCallFun(caller.Body, x) {
+							all = false
+						}
+					}
+				}
+				return true
+			})
+		}
+	}
+	return callers > 0 && all
+}
+
+// isCallFun: id is the function position of a call expression in body.
+func isCallFun(body ast.Node, id *ast.Ident) bool {
+	found := false
+	ast.Inspect(body, func(n ast.Node) bool {
+		if call, ok := n.(*ast.CallExpr); ok {
+			switch f := ast.Unparen(call.Fun).(type) {
+			case *ast.Ident:
+				if f == id {
+					found = true
+				}
+			case *ast.SelectorExpr:
+				if f.Sel == id {
+					found = true
+				}
+			}
+		}
+		return !found
+	})
+	return found
 }
